@@ -50,6 +50,17 @@ AUTH_TRUSTED = COMMON_TRUSTED + [
 ]
 
 PROPS = {
+    "C05": {
+        "modules": ["PasskeyVerif.Props.C05"],
+        "props_files": ["PasskeyVerif/Props/C05.lean"],
+        "translators": [tr_flags],
+        "harness": [["gen", "C05"]],
+        "trusted": AUTH_TRUSTED,
+        "assumptions": ["the store performs each call atomically", "lock wrappers delegate to the wrapped store (they are run, and modelled as the store they wrap)"],
+        "level_text": "Kernel-checked: for every store, a successful assertion is made with the first credential returned by a lookup for the request's RP ID and its non-empty allow list; for every store keeping the documented contract the credential used is a stored one bound to that RP and named in a non-empty allow list, and registration fails with credential-excluded (nothing saved, store unchanged) exactly when a non-empty exclude list names a stored credential of the same RP; the contract is proved for the reference store and the repaired single-slot store and refuted by a concrete witness for the in-memory map (known finding). The model is tied to the code by a differential stream over store contents with several RPs / shared user handles and every list shape, on the contract store, both shipped stores and four lock wrappers; the Spec (contract on every lookup, binding, exclusion) is evaluated on the implementation's observations.",
+        "level_note": "Trusted: Lean kernel; axioms propext/Classical.choice/Quot.sound; the hand model of the authenticator and of the three stores (compared byte for byte on the stream); the instrumented wrappers. Known findings (MemoryStore ignores rp_id; finds nothing without an id list) are listed in known_findings.json.",
+        "rule": "400 (thorough 4000) cases: 0-5 stored credentials over 3 RPs with shared / distinct / absent user handles, 1-3 ceremonies each with allow/exclude list absent, empty, hits for the RP, ids of another RP, misses, mixtures; 9 store variants (contract store x2 capabilities, map, slot, Arc<Mutex>/Arc<RwLock>/RwLock wrappers); cross-RP corpus first.",
+    },
     "C04": {
         "modules": ["PasskeyVerif.Props.C04"],
         "props_files": ["PasskeyVerif/Props/C04.lean"],
